@@ -42,7 +42,7 @@ var c18suiteNames = []string{"Ed25519", "P256", "Residue512", "bn256.G1", "bn256
 
 // service name -> suite ("" = registered without a suite); "ghost*" are never registered
 var c18services = [][2]string{
-	{"svcEd", "Ed25519"}, {"SvcEd2", "Ed25519"}, {"aaa", "Ed25519"}, {"Zeta", "Ed25519"}, {"svc-x_1", "Ed25519"},
+	{"svcEd", "Ed25519"}, {"SvcEd2", "Ed25519"}, {"aaa", "Ed25519"}, {"Zeta", "Ed25519"}, {"zeta", "Ed25519"}, {"ZETA", "Ed25519"}, {"svc-x_1", "Ed25519"},
 	{"svcP256", "P256"}, {"svcBn", "bn256.adapter"}, {"svcG1", "bn256.G1"}, {"svcQR", "Residue512"}, {"b", "P256"},
 	{"plain", ""},
 }
@@ -851,6 +851,16 @@ func c18generate(c *h.Ctx, yield func(*h.Case)) {
 			ptxt += fmt.Sprintf("[Services.%s]\n  Public = \"%s\"\n  Private = \"%s\"\n  Suite = \"Ed25519\"\n", nme, ks.pub, ks.priv)
 		}
 		emitPrivate("corpus-map-order", ptxt, 50, true)
+		// services whose names differ only in case: the order is the byte order of the names
+		ctxt := fmt.Sprintf("[[servers]]\n  Address = \"tcp://127.0.0.1:7000\"\n  Suite = \"Ed25519\"\n  Public = \"%s\"\n  Description = \"x\"\n", k.pub)
+		cptxt := fmt.Sprintf("Suite = \"Ed25519\"\nPublic = \"%s\"\nPrivate = \"%s\"\nAddress = \"tls://127.0.0.1:7770\"\nDescription = \"d\"\n", kp.pub, kp.priv)
+		for _, nme := range []string{"c18zeta", "c18Zeta", "c18ZETA"} {
+			ks := g.key("Ed25519")
+			ctxt += fmt.Sprintf("  [servers.Services.%s]\n    Public = \"%s\"\n    Suite = \"Ed25519\"\n", nme, ks.pub)
+			cptxt += fmt.Sprintf("[Services.%s]\n  Public = \"%s\"\n  Private = \"%s\"\n  Suite = \"Ed25519\"\n", nme, ks.pub, ks.priv)
+		}
+		emitGroup("corpus-case-only-names", ctxt, 50, true, "Ed25519")
+		emitPrivate("corpus-case-only-names", cptxt, 50, true)
 	}
 	maxSvc := c.Pick(4, 6)
 	total := c.Pick(9000, 60000)
